@@ -26,6 +26,71 @@ TYPES3 = {'Mat4', 'DMat4', 'Affine3A', 'DAffine3'}
 TYPES2 = {'Mat3', 'Mat3A', 'DMat3', 'Affine2', 'DAffine2', 'Mat2', 'DMat2'}
 
 
+def srt_rotation(F, H, M, r, rty, fields, e, so, sv, alg, S, d):
+    """the rotation returned by to_scale_rotation_translation is from_rotation_axes of the columns each divided by its own scale:
+    every column entry enters the quaternion only as entry * X_c with X_c * scale_c == 1, and from_rotation_axes interpreted on exactly
+    those values reproduces the returned quaternion term for term"""
+    (ro, qty, _) = fields[1]
+    qv = vec_info(F, qty)
+    if qv is None:
+        return 'rotation field is not a quaternion'
+    rq = [cell_term(r.ret, ro + off, sz) for (off, sz) in qv['lanes']]
+    if any(x is None for x in rq):
+        return 'rotation lanes not found'
+    X = {}
+    seen = set()
+    st = list(rq)
+    ent_at = {e[(c, rr)]: (c, rr) for c in range(d) for rr in range(d)}
+    while st:
+        t = st.pop()
+        if t.id in seen:
+            continue
+        seen.add(t.id)
+        if t.op == 'fmul' and len(t.args) == 2:
+            for a_, x_ in ((t.args[0], t.args[1]), (t.args[1], t.args[0])):
+                if a_ in ent_at and x_ not in ent_at:
+                    X.setdefault(ent_at[a_][0], set()).add(x_)
+        st.extend(x for x in t.args if isinstance(x, tm.T))
+    for c in range(d):
+        sc = cell_term(r.ret, so + sv['lanes'][c][0], sv['esz'])
+        good = []
+        for x in X.get(c, set()):
+            try:
+                if S.eq(S.mul(alg.nf(x), alg.nf(sc)), S.c(1)):
+                    good.append(x)
+            except ValueError:
+                pass
+        if len(good) != 1:
+            return 'column %d does not enter the rotation rescaled by 1 / scale.%s (%d such factors among %d products with its entries)' % (c, 'xyz'[c], len(good), len(X.get(c, set())))
+        X[c] = {good[0]}
+    # from_rotation_axes on exactly those normalised columns
+    qn = tydef(F, qty)
+    key = None
+    for n2, it2 in F.items.items():
+        if it2.get('name') == 'from_rotation_axes' and not it2.get('trait') and not it2.get('generic') and (it2.get('self_ty') or '').rsplit('::', 1)[-1] == qn:
+            key = it2['key']
+            b2 = F.body(key)
+            break
+    if key is None:
+        return 'from_rotation_axes of %s not found' % qn
+    from interp import Agg
+    av = {}
+    for c in range(d):
+        aty = strip_ref(F, b2['locals'][1 + c])[0]
+        vi = vec_info(F, aty)
+        ag = Agg(F.types[aty]['sz'])
+        for rr in range(d):
+            ag.cells[vi['lanes'][rr][0]] = (vi['esz'], tm.f2('fmul', e[(c, rr)], list(X[c])[0]))
+        av[c] = ag
+    r2 = H.run(key, arg_values=av)
+    if r2.abort or r2.ret is None:
+        return 'from_rotation_axes not analysable on the normalised columns: %s' % r2.abort
+    q2 = value_lanes(F, r2.ret, b2['locals'][0])
+    if q2 is None or any(a is not b for a, b in zip(q2, rq)):
+        return 'the rotation is not from_rotation_axes(columns / scale)'
+    return None
+
+
 def run(ctx):
     configs = ctx.need(CONFIGS_QUICK if ctx.tier == 'quick' else CONFIGS_THOROUGH)
     ctx.trusted = TRUSTED_COMMON + ['reference mathematics rules/spec.py (quaternion rotation matrix, 2D rotation)']
@@ -155,6 +220,8 @@ def run(ctx):
                             bad = 'scale.x is not |column 0| * signum(det)'
                     elif got is None or not S.eq(alg.nf(got), ln):
                         bad = bad or 'scale component %d is not the length of column %d' % (c, c)
+                if not bad and mname == 'to_scale_rotation_translation':
+                    bad = srt_rotation(F, H, M, r, rty, fields, e, so, sv, alg, S, d)
                 if not bad and mname == 'to_scale_angle_translation':
                     (ao, aty_, _) = fields[1]
                     got = cell_term(r.ret, ao, F.types[aty_]['sz'])
